@@ -8,6 +8,8 @@ LEVEL = "model_checking"
 # exact-in-binary affine maps v -> a*v + b (a > 0)
 MAPS = [(1, 0, "int"), (1.0, 0.0, "float"), (0.125, 5.0, "x2^-3+5"), (float(2 ** 20), 0.0, "x2^20"), (3.0, -7.0, "x3-7"),
         (2.0 ** -40, 0.0, "x2^-40"),       # a tiny coordinate scale: the tolerance is relative to the scale, not absolute
+        # finite coordinates whose PRODUCTS leave the double range (squares overflow above 2^512, vanish below 2^-537): "every finite segment"
+        (2.0 ** 530, 0.0, "x2^530"), (2.0 ** -530, 0.0, "x2^-530"),
         # maps that are NOT exact in binary: the coordinates carry rounding noise (1e-16 relative), far below the tolerance and far below the
         # smallest non-zero miss distance of the lattice, so the class (accept / reject / free) and the inside part are unchanged - but the
         # code's own intersections no longer land exactly on the boundary (its precision failsafe is reached through these)
